@@ -18,6 +18,8 @@ from dataclasses import dataclass, field
 from typing import Any, Callable, Dict, List, Optional
 
 REGISTRY: Dict[str, "Harness"] = {}
+# bounds of the tier being run, visible to harness bodies (set by the worker / native runner before a harness runs)
+CURRENT: Dict[str, Any] = {}
 
 
 @dataclass
@@ -101,3 +103,29 @@ def pick(k: int, options):
         if k == i:
             return options[i]
     return options[n - 1]
+
+
+def conc(k: int, lo: int, hi: int) -> int:
+    """The concrete value of a selector: forks on k (lo <= k <= hi) and returns a plain Python int."""
+    for i in range(lo, hi):
+        if k == i:
+            return i
+    return hi
+
+
+def concrete(fn, *args):
+    """Run fn(*args) with CrossHair's tracer suspended.
+
+    Only for calls whose arguments are all concrete on the current path (selectors already resolved with
+    pick()/conc()).  Then tracing cannot change the result - it only interprets the same concrete byte-code
+    ~50x slower - so suspending it is an optimisation, not an abstraction.  If a symbolic value does slip in,
+    CrossHair raises CrossHairInternal ("... on symbolic while not tracing") and the shard is reported as an
+    error, never as a pass.  Natively (replay, witnesses) this is a plain call."""
+    try:
+        from crosshair.tracers import NoTracing, is_tracing
+    except ImportError:  # pragma: no cover
+        return fn(*args)
+    if is_tracing():
+        with NoTracing():
+            return fn(*args)
+    return fn(*args)
